@@ -33,6 +33,78 @@ CLAIMED["C08"] = dict(
     note="Partial: the theorem is at ticker level (one scheduler). Delivery interleavings across a whole simulation with a broker-like bus are explored against the real schedulers by the S-level harness where built; the shipped Kafka classes are never executed (no broker in the sandbox) -- only the StateConsumer/StateProducer contract they implement is exercised.",
     technique="Coq proof (confluence by induction on wiring rank) + exhaustive answer-order correspondence",
     ref="5/C08")
+
+TB = "Trusted: Coq kernel + vm_compute (no axioms: every theorem is 'Closed under the global context'), the Python harness that drives the real classes and renders what they did as Gallina literals, "
+CLAIMED["C03"] = dict(
+    text="Coq theorems, for every wiring / answer order / history: route() reaches exactly the wired input ports (C03_route_exact, C03_route_nothing_else); within a tick the changes handed to a component are exactly what its upstreams answered earlier in that tick, whatever the interleaving (C03_within_tick); a device component's cumulative inputs hold per port the latest value ever received (C03_cumulative_latest). Whole simulations (flat and nested to depth 3, multi-tick, callbacks and interrupts) of the real schedulers/components are compared inside Coq with Model/Sim.v, and a Coq-defined oracle (latest_ok, code 81) decides on every observed update that the inputs equal the latest reported value of the resolved upstream device output along the flattened wiring - through external/exposed ports in both directions.",
+    note=TB + "the virtual-time event loop. PARTIAL: the composition of the three layers through system-simulation boundaries is not a theorem; it is decided per run by the oracle. Values are integers.",
+    technique="Coq proof (route/ticker/component layers) + whole-simulation correspondence + Coq oracle on observed runs",
+    ref="5/C03")
+CLAIMED["C04"] = dict(
+    text="Coq theorems over Model/Master.v (a step machine of MasterScheduler: phases, pending answers, wakeups, anchor of the real-time/simulation-time mapping) for EVERY event history (answers in any order, interrupts in any phase, wake-ups, exceptions): a tick starts only when no tick is running, every dispatch of a tick carries that tick's single time, a tick ends exactly when its last participant answered (C04_serial_one_time, C04_tick_ends_when_all_answered) and tick times never decrease (C04_monotone). The machine is tied to the real MasterScheduler by driving it message by message with answers in flight and comparing every output with the model inside Coq; nested: every inner tick of a whole simulation lies inside the outer tick that triggered it at the same time.",
+    note=TB + "the fake consumer/producer and patched clock of the message-level driver. asyncio's choice between a simultaneously due timer and interrupt is explored, not modelled.",
+    technique="Coq proof (invariant over all event histories of the master step machine) + message-level correspondence + nested containment oracle",
+    ref="5/C04")
+CLAIMED["C05"] = dict(
+    text="Coq theorems over the whole-simulation model Model/Sim.v for every configuration tree of any depth, every device behaviour: the master's initial tick observes exactly the devices of the whole tree, each exactly once, in configuration order, at the initial time (C05_initial, C05_exactly_once); the first tick of every nested scheduler updates all its devices whatever its external inputs (C05_first_nested_tick). Tied to the real MasterScheduler/NestedScheduler/SystemComponent/DeviceComponent by whole-simulation correspondence runs on generated nestings (depth <= 3, devices not fed from outside, systems without inputs or outputs) with the oracle codes 61/62.",
+    note=TB + "the virtual-time event loop. The theorem's premises (tree-shaped nesting, reserved ids unused, fuel above depth) are checked on every generated configuration.",
+    technique="Coq proof (induction on nesting depth, fold invariants) + whole-simulation correspondence",
+    ref="5/C05")
+CLAIMED["C06"] = dict(
+    text="Coq theorems over Model/Master.v for every event history: the scheduler always sleeps for the earliest pending wakeups and runs them together as the roots of ONE tick (C06_first_wakeups, C06_honoured_merged_once), a tick is started only by a wakeup that a component requested or an interrupt (C06_not_invented), and requests not yet due are kept (C06_pending_kept). Whole simulations with periodic/one-shot callbacks at every depth are compared with Model/Sim.v and Coq oracles check per device that each requested callback is honoured exactly at its time (65) and that no update happens without cause (66).",
+    note=TB + "the virtual-time event loop. A later call_at replacing an earlier pending one (dict overwrite) is the modelled behaviour.",
+    technique="Coq proof (master step-machine invariant) + whole-simulation correspondence + Coq oracles",
+    ref="5/C06")
+CLAIMED["C07"] = dict(
+    text="Coq theorems over Model/Master.v for every event history: an interrupt is never lost - it becomes a wakeup at min(stamp, pending) whatever the phase (C07_not_lost), an idle or sleeping master starts its tick at once (C07_prompt_when_idle, C07_due_at_once) and the master never sleeps past a pending wakeup (C07_never_sleeps_past_pending). Tied to the real scheduler at message level (interrupts in every phase, mid-tick, mid-initial-tick) and by whole simulations in which one interrupt is injected at EVERY event-loop step of a window for every device at every depth, judged by a Coq promptness oracle.",
+    note=TB + "the virtual-time event loop and its step-counting injection hook. The promptness bound of the oracle is 'the end of the tick in progress plus the ticks already owed', with 2 ns slack per tick for the float speed arithmetic.",
+    technique="Coq proof (master step-machine invariant) + message-level correspondence + exhaustive injection-point sweep with Coq oracle",
+    ref="5/C07")
+CLAIMED["C09"] = dict(
+    text="The flat wiring equivalent to a nesting is a Coq function (flatten). Proved for every configuration: its devices are exactly those the nested model visits, in order; a configuration without systems is its own flattening; in the initial tick the nested model updates exactly the flattened device list (C09_flat_devices, C09_flat_identity, C09_initial_transparent). Transparency over multi-tick histories is decided per PAIR of runs of the real schedulers: every generated nesting (depth <= 3, siblings, pass-through ports, systems without inputs/outputs, callbacks, interrupts) is run nested and flat, Coq checks that the harness's flat configuration IS the flattening (73) and that every device observes the same sequence of times and inputs (71), besides both runs agreeing with Model/Sim.v.",
+    note=TB + "the virtual-time event loop. PARTIAL: equality of full observation sequences between nested and flat model runs is not a theorem.",
+    technique="Coq proof (flattening) + paired whole-simulation runs compared in Coq",
+    ref="5/C09")
+CLAIMED["C10"] = dict(
+    text="Coq theorems: topics of different components never coincide and no input topic is an output topic, over constants re-extracted from the source each run (C10_topics_disjoint); a device update touches only that device's state and a component outside a tick's extent is untouched (C10_update_frame, C10_outside_extent_untouched); a whole tick of a flat level extended by a disconnected part gives every old device the same observation and state (C10_tick_noninterference, when present in Props/C10.v). Non-interference over histories is decided per pair of runs of the real classes: configuration vs configuration + disconnected devices/system simulations (91), probe adapters notified exactly once per own update, and the shipped EpicsAdapter/CommandAdapter driven without network (records of one adapter never touched by another's update).",
+    note=TB + "the virtual-time event loop, a stub for softioc's builder. PARTIAL: the multi-tick statement for the master is pairwise-tested, not proved. Integer speeds only in the pairs (rounding of the real-time deadline may differ by 1 ns otherwise, which is not an observation of any device).",
+    technique="Coq proof (topic injectivity, frame lemmas) + paired whole-simulation runs compared in Coq + adapter-level differential runs",
+    ref="5/C10")
+CLAIMED["C11"] = dict(
+    text="Coq theorems over Model/FailStop.v for every component tree and every failing device: the stop broadcast reaches every component of every depth (C11_broadcast_reaches_subtree, C11_all_stopped); the pinned tree's behaviour (nested components not stopped) is refuted by a witness. Tied to the real code by running whole flat/nested simulations through TickitSimulation.run() where device d raises at its n-th update for every (d, n) and adapter hooks fail: which exception the master handled, which components ran stop_component, whether run() returned, whether another tick started - compared in Coq.",
+    note=TB + "the virtual-time event loop. Cancellation semantics of asyncio tasks are exercised, not modelled.",
+    technique="Coq proof (induction on the component tree) + exhaustive (device, update) failure sweep compared in Coq",
+    ref="5/C11")
+CLAIMED["C12"] = dict(
+    text="Coq theorems over Model/Master.v for every event history and every positive rational speed: a scheduled tick never starts before its real-time deadline (C12_never_early), the deadline is the exact ceiling of (when - last)/speed from the last tick's anchor (C12_exact), interrupt stamps are the linear image of real time and never before the previous tick (C12_stamp, C12_stamp_due), and the mapping is linear per step (C12_linear_step). Whole simulations at several speeds are compared with Model/Sim.v; oracle 96 checks no tick earlier than speed allows.",
+    note=TB + "the virtual-time event loop with 0.2 ns clock resolution. Speeds are rationals num/den; the implementation's float arithmetic is compared within the stated rounding (deadline ceiling), not modelled bit-exactly.",
+    technique="Coq proof (arithmetic over Z with ceiling division; master invariant) + whole-simulation correspondence",
+    ref="5/C12")
+CLAIMED["C13"] = dict(
+    text="Coq theorems: a late subscriber is replayed exactly the backlog of its topics, once, in order, for every prior history (C13_replay_complete); with the start-up sequences extracted from the current source every handler finds the producer/ticker/wakeup state it needs when the backlog is replayed inside subscribe() (C13_replay_safe; the pinned order is refuted). Whole simulations where the scheduler and each component start at their own event-loop step (exhaustive delay vectors on small configurations), optionally with an early interrupt, are compared with Model/Sim.v, which has no notion of start order.",
+    note=TB + "the start-up sequence translator (fail-closed on unknown statements), the virtual-time event loop. Kafka's replay is the broker's and is not executed.",
+    technique="Coq proof (bus invariant) + translator-extracted start-up sequences decided in Coq + exhaustive start-delay sweep",
+    ref="5/C13")
+CLAIMED["C14"] = dict(
+    text="Coq theorems over Model/Ledger.v: the number of helper tasks/timers/wakeup entries is a function of the configuration only - independent of the number of ticks, for every history (C14_helpers_bounded, C14_tasks_function_of_configuration), and the TCP handler retains a bounded number of reply tasks per connection (C14_tcp_bounded). The ledger is compared EXACTLY with counts of pending asyncio tasks, armed timers and wakeup entries after N, 2N, 4N ticks of real flat/nested simulations, and with the tasks the real TcpIo handler retains after N, 2N, 4N chunks.",
+    note=TB + "the virtual-time event loop; gc + asyncio.all_tasks() as the measuring instrument. Memory of the interpreter itself is not measured.",
+    technique="Coq proof (ledger invariant) + exact resource-count correspondence at three run lengths",
+    ref="5/C14")
+CLAIMED["C17"] = dict(
+    text="Coq theorems over Model/Config.v for every history of class definitions and validations: the tagged-union registry dispatches every entry to exactly the class whose fully qualified name it carries, never to a class with the same fields or short name, and a cached dispatcher is never stale (C17_dispatch, C17_history, C17_cache_never_stale); the wiring built from a configuration list has exactly the declared connections (C17_wiring); component selection keeps exactly the requested components and rejects unknown ones (C17_selection, C17_selection_rejects). Tied to tickit.utils.configuration by generated families of real config modules and YAML files (random order, depth 3) loaded through read_configs/build_simulation.",
+    note=TB + "pydantic and PyYAML as the parser (exercised, not modelled).",
+    technique="Coq proof (registry invariant over definition/validation histories) + generated-module correspondence",
+    ref="5/C17")
+CLAIMED["C18"] = dict(
+    text="Coq theorems over Model/Command.v for every command list and message: the handler run is the FIRST command whose decoding+full-match accepts the message, unknown messages get the unknown reply and nothing else, every message gets exactly one outcome, an interrupt is raised iff the command says so and only after its replies, replies are written in order on the connection that sent the message (C18_dispatch .. C18_connection); the pinned tree's crash on undecodable bytes is refuted by a witness. Tied to CommandAdapter/RegexCommand/TcpIo by driving the real handler with every byte string up to length 1 (2 thorough), pattern-derived and malformed messages and chunk sequences; the decode/regex verdict per command comes from Python's own codecs/re, independent of tickit.",
+    note=TB + "Python's re and codecs as the matching oracle (modelled as a boolean table).",
+    technique="Coq proof (first-match dispatch) + exhaustive small-message correspondence",
+    ref="5/C18")
+CLAIMED["C19"] = dict(
+    text="Coq theorems over the interleaving model Model/Zmq.v for EVERY schedule of queueing, direct sends, socket-creation completion and drain completion: at most one socket is ever created and it exists iff creation completed (C19_one_socket, C19_socket_iff_created); every queued message is written exactly once and in queue order (C19_fifo_once); parts are serialised by the stated rule (C19_serialise). Tied to the real ZeroMqPushIo/Adapter with a fake socket factory: every atomic step of the implementation is logged and replayed inside Coq as a run of the model (trace validation), over exhaustive short schedules and random long ones.",
+    note=TB + "the fake aiozmq socket/factory; real ZeroMQ sockets are not used.",
+    technique="Coq proof (invariant over all interleavings) + trace validation of the real coroutine steps",
+    ref="5/C19")
 NOT_YET = {}
 ALL = [f"C{n:02d}" for n in range(1, 21)]
 
